@@ -229,3 +229,15 @@ def run(ctx):
     r.require_min(1)
     ctx.borrow('c03', ['R03b', 'R03c'], 'a supplied destination fragment is an input: it is copied out, never rewritten')
     ctx.borrow('c14', ['R14f'], 'encode on one instance must not depend on other instances having been created or destroyed: the shared GF tables are reference counted')
+    r = ctx.rule('R15f', 'backend decode / reconstruct operations do not write through the erasure list they are given',
+                 'decoders that use the caller\'s list as a work queue return it truncated: the front end then skips the rebuilt fragments')
+    from . import shared as _sh2
+    _sh2.rule_missing_list_readonly(ctx, P, r)
+    r.require_min(4)
+    ctx.borrow('c11', ['R11c'], 'the payload CRC must be taken over the byte-order-corrected size, or the query reads far past the fragment')
+    r = ctx.rule('R15g', 'XOR decode / reconstruct write only buffers of missing elements or local scratch',
+                 'a supplied parity used as a bounce buffer is modified (and restored) behind the caller\'s back: read-only mappings fault, concurrent readers see garbage')
+    from .. import xorrules as _xr
+    _xr.write_targets_rule(P, r)
+    r.require_min(8)
+
